@@ -341,6 +341,165 @@ def gen_cases(ck):
     return cases
 
 
+# ---- histories through the real StreamHandle (c15h cases, rust/h_u3v/src/c15.rs, model/StreamStart.v) ----------
+H_OPEN, H_ENABLE, H_DISABLE, H_START, H_STOP, H_POKE = 10, 13, 14, 21, 22, 23
+
+
+def build_hist(k, en, req, steps, sirm=SIRM, fail=None, junk=0):
+    """req = (rl, rp, rt) initially in the SIRM; steps: 'E' enable | 'D' disable | 'S' start | 'X' stop |
+    ('R', rl, rp, rt) the camera is reconfigured: new required sizes | ('K', k) new alignment exponent"""
+    w = std_world(1024, 1024, sirm=sirm, abrm_len=0x1E0)
+    w.poke(sirm + SI_INFO, 4, (k & 0xFF) << 24)
+    w.poke(sirm + SI_CONTROL, 4, en & 1)
+    w.poke(sirm + REQ_PAYLOAD, 8, req[1])
+    w.poke(sirm + REQ_LEADER, 4, req[0])
+    w.poke(sirm + REQ_TRAILER, 4, req[2])
+    if junk:
+        for off in (MAX_LEADER, XFER_SIZE, XFER_COUNT, FINAL1, FINAL2, MAX_TRAILER):
+            w.poke(sirm + off, 4, (junk * 40503 + off * 257) & 0xFFFF)
+    wt = list(w.toks)
+    if fail is not None:
+        wt += [6, NTX_OPEN + fail[0]] + FAILS[fail[1]][0]
+    ops = [H_OPEN]
+    for st in steps:
+        if st == "E":
+            ops += [H_ENABLE]
+        elif st == "D":
+            ops += [H_DISABLE]
+        elif st == "S":
+            ops += [H_START, sirm]
+        elif st == "X":
+            ops += [H_STOP]
+        elif st[0] == "R":
+            ops += [H_POKE, sirm + REQ_LEADER, 4, st[1], H_POKE, sirm + REQ_PAYLOAD, 8, st[2],
+                    H_POKE, sirm + REQ_TRAILER, 4, st[3]]
+        elif st[0] == "K":
+            ops += [H_POKE, sirm + SI_INFO, 4, (st[1] & 0xFF) << 24]
+    meta = dict(hist=True, k=k, en=en & 1, req=list(req), steps=[list(x) if isinstance(x, tuple) else x for x in steps],
+                sirm=sirm, fail=list(fail) if fail else None, rp=req[1])
+    return Case("c15h", wt + ops, meta=meta)
+
+
+def hist_term(c):
+    from vplib import zlist
+    return "run_c15h %s" % zlist(c.expanded())
+
+
+def predicate_hist(c, out):
+    """After every successful start: the parameters the StreamHandle holds (and the transfers its loop submits)
+    equal the six SIRM registers the device holds, and those cover the requirements that were in the SIRM at
+    the latest successful enable_streaming.  Written from the property text only."""
+    m = c.meta
+    po = parse_output(out)
+    if po is None:
+        return "harness output unreadable / harness died: %r" % (_clip(out),)
+    res, events, writes = po
+    if any(r[0] == "panic" for r in res):
+        return "operation %d panicked" % [r[0] for r in res].index("panic")
+    sirm = m["sirm"]
+    cur = list(m["req"])
+    k = m["k"]
+    enabled_req = None
+    i = 1                      # result index (0 = open)
+    if res[0][0] != "ok":
+        return "open failed against a conforming device"
+    nstart = 0
+    last_written = {}
+    for st in m["steps"]:
+        if isinstance(st, list) and st[0] == "R":
+            cur = list(st[1:4])
+            i += 3
+            continue
+        if isinstance(st, list) and st[0] == "K":
+            k = st[1]
+            i += 1
+            continue
+        if i >= len(res):
+            return "missing result for step %r" % (st,)
+        r = res[i]
+        i += 1
+        if st == "E":
+            if r[0] == "ok":
+                enabled_req = (list(cur), k)
+            elif m["fail"] is None and k < 32 and coverable32(cur[0], 1 << k) and coverable32(cur[2], 1 << k) \
+                    and cur[1] // max(65536, 1 << k) < U32:
+                return "enable_streaming failed with %r against a conforming device" % (r[1:],)
+        elif st == "S" and r[0] == "ok":
+            nstart += 1
+            v = list(r[1])
+            if len(v) != 16:
+                return "start printed %d values" % len(v)
+            hp, regs, subs = v[0:6], v[6:12], v[12:16]
+            if hp != regs:
+                return ("start %d: the stream parameters in force for the receive loop %r differ from the SIRM "
+                        "registers programmed by the last enable_streaming %r" % (nstart, hp, regs))
+            leader, trailer, size, count, f1, f2 = regs
+            want = [2 + count + (1 if f1 else 0) + (1 if f2 else 0), leader, trailer, size * count + f1 + f2]
+            if subs != want:
+                return ("start %d: the receive loop submits transfers (n, leader, trailer, payload) = %r, the "
+                        "programmed registers mean %r" % (nstart, subs, want))
+            if enabled_req is not None:
+                (rl, rp, rt), kk = enabled_req
+                if leader < rl or trailer < rt or size * count + f1 + f2 < rp:
+                    return ("start %d: parameters %r do not cover the requirements (%d, %d, %d) programmed at the "
+                            "latest enable_streaming" % (nstart, regs, rl, rp, rt))
+        elif st == "S" and r[0] == "err" and m["fail"] is None:
+            running = False
+            # InStreaming is the only acceptable failure on a conforming device
+            if r[1] != 9:
+                return "start failed with stream error class %r against a conforming device" % (r[1],)
+        elif st in ("D", "X") and r[0] != "ok" and m["fail"] is None:
+            return "%s failed against a conforming device" % st
+    return None
+
+
+def nontrivial_hist(c, out):
+    return sum(1 for s in c.meta["steps"] if s == "S") >= 2
+
+
+def gen_hist(ck):
+    rng = Rng(ck.seed + 77)
+    quick = ck.tier == "quick"
+    cases = []
+    small = lambda: (rng.choice([0, 1, 52, 64, 100, 1000, 4096, 65535, 65536, 65537]),
+                     rng.choice([1, 1000, 65535, 65536, 65537, 100000, 300000, 1 << 20, (1 << 20) + 5, 2000000]),
+                     rng.choice([0, 1, 32, 64, 100, 1000, 4097, 65536]))
+    # restart after a reconfiguration: larger and smaller second frame, with and without disable
+    for (a, b_) in (((52, 100000, 64), (100, 300000, 64)), ((100, 300000, 64), (52, 100000, 32)),
+                    ((52, 65536, 64), (52, 65537, 64)), ((0, 1, 0), (4096, 1 << 20, 4097))):
+        for k in (0, 3, 10, 16):
+            cases.append(build_hist(k, 0, a, ["E", "S", "X", "D", ("R",) + b_, "E", "S", "X"]))
+            cases.append(build_hist(k, 1, a, ["E", "S", "X", ("R",) + b_, "E", "S"]))
+    # three rounds, alignment changes too
+    cases.append(build_hist(2, 0, (52, 100000, 64), ["E", "S", "X", "D", ("R", 64, 70000, 52), ("K", 8), "E", "S", "X", "D",
+                                                     ("R", 1000, 1 << 20, 1000), ("K", 0), "E", "S"]))
+    # restart without a new enable (the registers still hold the last programming); reconfigure without enable
+    cases.append(build_hist(4, 0, (52, 100000, 64), ["E", "S", "X", "S", "X", ("R", 100, 300000, 64), "S"]))
+    # start before any enable, start while running, enable while running
+    cases.append(build_hist(4, 0, (52, 100000, 64), ["S", "X", "E", "S"], junk=5))
+    cases.append(build_hist(4, 0, (52, 100000, 64), ["E", "S", "S", "X", "S"]))
+    cases.append(build_hist(4, 0, (52, 100000, 64), ["E", "S", ("R", 100, 300000, 64), "E", "S", "X", "S"]))
+    # a requirement that is refused at the second enable: the old programming stays in force
+    cases.append(build_hist(16, 0, (52, 100000, 64), ["E", "S", "X", "D", ("R", U32 - 1, 100000, 64), "E", "S"]))
+    # from_control fails at a restart (device failure at one of its transactions), then works again
+    for t in (15 + 0, 15 + 3, 15 + 10):
+        for kind in ("recv_timeout", "status_denied"):
+            cases.append(build_hist(3, 0, (52, 100000, 64), ["E", "S", "X", "S"], fail=(t + 11, kind)))
+            cases.append(build_hist(3, 0, (52, 100000, 64), ["E", "S", "X", "D", ("R", 100, 300000, 64), "E", "S", "X", "S"],
+                                    fail=(15 + 11 + 1 + 13 + 5, kind)))
+    for _ in range(20 if quick else 300):
+        k = rng.range(0, 16)
+        steps = []
+        for _r in range(rng.range(2, 4)):
+            steps += ["E", "S"] + (["X"] if rng.chance(4, 5) else []) + (["D"] if rng.chance(1, 2) else [])
+            steps += [("R",) + small()]
+            if rng.chance(1, 3):
+                steps += [("K", rng.range(0, 16))]
+        steps += ["E", "S"]
+        cases.append(build_hist(k, rng.below(2), small(), steps, junk=rng.below(50)))
+    return cases
+
+
 def main():
     ck = Check("C15")
     ck.rule = ("real ControlHandle::enable_streaming / disable_streaming / StreamParams::from_control (unmodified "
@@ -350,7 +509,12 @@ def main():
                "initially enabled or not, repeated enable/disable, nine kinds of device failure at every transaction of "
                "enable_streaming; predicate = the property's inequalities, alignment, write order evaluated on the "
                "device's write log and register image, read-back by from_control; non-trivial = payload > 0 or injected "
-               "failure")
+               "failure.  Histories through the real StreamHandle (c15h cases vs model/StreamStart.v run_c15h): open, then "
+               "enable / start_streaming_loop / stop / disable / reconfiguration of the required sizes and the alignment, "
+               "restarts with and without a new enable, start while running, refused second requirement, from_control "
+               "failing at a restart; after EVERY successful start the parameters held by the handle and the transfers "
+               "submitted by the first loop iteration must equal the six SIRM registers in device memory and cover the "
+               "requirements present at the latest successful enable_streaming")
     ck.trusted += ["rust/shim (scripted U3V device) and its transcription in model/Control.v (conform/on_send/on_recv)",
                    "tools/c15.py, tools/ctlcase.py, tools/u3vworld.py"]
     ck.prove()
@@ -367,9 +531,12 @@ def main():
         if r.get("kind") != "case":
             print(json.dumps(r, indent=1)[:4000])
             sys.exit(0)
-        c = Case("ctl", r["mtoks"].split(), meta=r.get("meta"))
+        c = Case(r.get("ckind") or "ctl", r["mtoks"].split(), meta=r.get("meta"))
         impl = ck.run_impl(binary, [c.line], big_stack=True)
-        model = ck.run_model_terms(["ControlRun"], [model_term(c)])
+        if c.kind == "c15h":
+            model = ck.run_model_terms(["StreamStart"], [hist_term(c)])
+        else:
+            model = ck.run_model_terms(["ControlRun"], [model_term(c)])
         print("case :", c.line[:600])
         print("impl :", _clip(impl[0], 200))
         print("model:", _clip(model[0], 200))
@@ -390,6 +557,13 @@ def main():
                [m for c, m in zip(cases, model) if c.meta["fail"]], predicate, nontrivial,
                family="device failure at one transaction")
     ck.dist["injected_failures"] = nf
+    ck.phase("compare")
+    hcases = gen_hist(ck)
+    himpl = ck.run_impl(binary, [c.line for c in hcases], jobs=4, big_stack=True)
+    hmodel = ck.run_model_terms(["StreamStart"], [hist_term(c) for c in hcases], per_eval=10, jobs=8)
+    ck.phase("histories")
+    ck.compare(hcases, himpl, hmodel, predicate_hist, nontrivial_hist,
+               family="enable / start / stop / disable / reconfigure histories on one StreamHandle")
     ck.finish()
 
 
